@@ -2,7 +2,7 @@ from dataclasses import dataclass
 
 from mypy.nodes import CallExpr, IndexExpr, IntExpr, NameExpr, SliceExpr
 
-from refurb.checks.common import stringify
+from refurb.checks.common import stringify, stringify_operand
 from refurb.error import Error
 
 
@@ -46,7 +46,7 @@ def check(node: IndexExpr, errors: list[Error]) -> None:
             base=CallExpr(callee=NameExpr() as name_node, args=[arg]),
             index=SliceExpr(begin_index=IntExpr(value=2), end_index=None, stride=None),
         ) if name_node.fullname in FUNC_CONVERSIONS:
-            arg = stringify(arg)  # type: ignore
+            arg = stringify_operand(arg, "{}")  # type: ignore
 
             format = FUNC_CONVERSIONS[name_node.fullname or ""]
             fstring = f'f"{{{arg}:{format}}}"'
